@@ -10,6 +10,7 @@ from ..refs import maxerr
 
 PROPERTY = "C10"
 ENGINE = "E2"
+TECHNIQUE = "exhaustive enumeration of the axis alphabet (all ordered pairs/triples incl. ties and near-ties) x centres vs independently computed closed forms (AGM, Carlson)"
 RULE = (
     "cases = every ordered pair/triple of semi-axes from the 9-value alphabet {1e-3,.3,1,1+2^-52,1+1e-12,1+1e-6,2,7.5,1e3} "
     "(ties, near-ties, prolate, oblate, needle, disc) x 4 centres with distinct components (up to 10 diameters) for Circle, "
